@@ -24,7 +24,7 @@ def run(chk):
                 "first N differ from the unconstrained first N, or the case is an inactive / allowance-zero reduction")
     exprs, meta = [], []
     for it in range(450 if thorough else 100):
-        B, n, m, N, L, s = R.gen_region_case(rng, *((12, 7) if thorough else (9, 5)))
+        B, n, m, N, L, s = R.gen_region_case(rng, *((12, 7) if thorough else (9, 5)), graded=0.15)
         A = [int(i) for i in QR().fit(B).get_sensors()]
         k = min(n, m)
         mode = it % 3
@@ -43,7 +43,8 @@ def run(chk):
             except Exception as e:
                 chk.count("gqr-rejected:" + type(e).__name__)
                 continue
-            if any(min(st["dlens"]) == 0 for st in steps[:N]):
+            zero_res, tiny_res, res2 = R.degenerate_steps(B, piv, N)      # exact arithmetic, independent of the loop's own norms
+            if zero_res or tiny_res:
                 chk.count("ZERO-RESIDUAL-SKIP")
                 continue
             chk.case(case, nontrivial=(piv[:N] != A[:N]) or mode > 0)
@@ -58,6 +59,16 @@ def run(chk):
                 same = [st["dlens"][i] for i, c in enumerate(cands) if (c in L) == (pick in L)]
                 if max(same) > dp:
                     chk.violation("impl", "not-best-of-class:" + opt, f"{opt}: step {j} picked sensor {pick} (norm {dp}) although a sensor of the same class has norm {max(same)}", {**ctx, "step": j})
+                    break
+            # (1') the same with residual norms recomputed from B in exact arithmetic (the loop's norms must BE the residual norms)
+            for j in range(N):
+                pick = piv[j]
+                dp2 = float(res2[j][pick])
+                same2 = max(float(res2[j][c]) for c in piv[j:] if (c in L) == (pick in L))
+                slack = (64 * 2.2e-16 * float(np.sqrt((B ** 2).sum(axis=1)).max())) ** 2
+                if same2 > dp2 * (1 + 1e-6) ** 2 + slack and np.sqrt(same2) > np.sqrt(dp2) + np.sqrt(slack):
+                    chk.violation("impl", "not-best-of-class-exact:" + opt, f"{opt}: step {j} picked sensor {pick} with residual norm {np.sqrt(dp2):.6g} although a "
+                                  f"sensor of the same class has residual norm {np.sqrt(same2):.6g} (recomputed exactly from the basis matrix)", {**ctx, "step": j})
                     break
             # (2) inactive constraint => unconstrained ranking
             cntN = len([c for c in A[:N] if c in L])
@@ -94,8 +105,13 @@ def run(chk):
                 exprs.append(f"ccqr_pivots {cq} {n} {k} [{'; '.join(C.czlist(r) for r in tab)}]")
                 meta.append(({**case, "part": "CCQR replay"}, cc))
             table = R.table_from_steps(steps, n)
-            exprs.append(f"gqr_pivots {R.OPT[opt]} {R.coq_settings(L, A, N, s)} {n} {k} [{'; '.join(C.czlist(r) for r in table)}]")
-            meta.append(({**case, "part": "GQR replay"}, piv))
+            kk = len(table)                     # = k unless the run produced non-finite norms in its late steps
+            exprs.append(f"firstn {kk} (gqr_pivots {R.OPT[opt]} {R.coq_settings(L, A, N, s)} {n} {kk} [{'; '.join(C.czlist(r) for r in table)}])")
+            meta.append(({**case, "part": "GQR replay"}, piv[:kk]))
+            if kk < k:
+                chk.count("NONFINITE-LATE-STEPS-TRUNCATED")
+                if kk < N:
+                    chk.violation("impl", "nonfinite-norms-within-first-n", f"{opt}: the residual norms became non-finite at step {kk} < n_sensors = {N}", ctx)
     files = []
     for i in range(0, len(exprs), 120):
         body = ("From Coq Require Import List Arith ZArith. Import ListNotations.\nFrom PS Require Import Sel.NormCalc Exec.Run_C05.\n"
